@@ -43,8 +43,8 @@ BoxOps  == {"val", "items0", "items1", "items2", "plus1", "me_val", "boom", "nop
 CntOps  == {"bump", "count"}
 IterOps == {"next"}
 ListOps == {"iter", "item0", "count11", "sortnone"}
-OpsOf(kind) == CASE kind = "box" -> BoxOps [] kind = "cnt" -> CntOps [] kind = "iter" -> IterOps [] kind = "list" -> ListOps
-AllOps == BoxOps \cup CntOps \cup IterOps \cup ListOps
+OpsOf(kind) == CASE kind = "box" -> BoxOps [] kind = "cnt" -> CntOps [] kind = "iter" -> IterOps [] kind = "list" -> ListOps [] kind = "nil" -> {"get"}
+AllOps == BoxOps \cup CntOps \cup IterOps \cup ListOps \cup {"get"}
 
 VARIABLES store,      \* server table: Seq of objects, id = index
           known,      \* ids a client may use (references travel between clients by pickling)
@@ -64,6 +64,7 @@ NewObj(kind) == CASE kind = "box"  -> [k |-> "box", n |-> 3]
                   [] kind = "cnt"  -> [k |-> "cnt", n |-> 0]
                   [] kind = "list" -> [k |-> "list", n |-> 0]
                   [] kind = "iter" -> [k |-> "iter", n |-> 0]
+                  [] kind = "nil"  -> [k |-> "nil", n |-> 0]          \* the evaluated code returned None and the result is kept on the server
 
 NoneVal == -7          \* stands for Python's None in answers
 \* the meaning of one chained operation on an object: <<value, object afterwards, new object or NoObj>>
@@ -84,6 +85,7 @@ Apply(o, op) ==
     [] o.k = "iter" /\ op = "next"  -> IF o.n < L THEN <<I(Src(o.n + 1)), [o EXCEPT !.n = @ + 1], NoObj>>
                                                   ELSE <<Err("StopIteration"), o, NoObj>>
     [] o.k = "list" /\ op = "iter"  -> <<NoResp, o, [k |-> "iter", n |-> 0]>>     \* answered with a reference
+    [] o.k = "nil" /\ op = "get" -> <<I(NoneVal), o, NoObj>>                  \* fetching the kept result: None, not "missing"
     [] o.k = "list" /\ op = "sortnone" -> <<I(NoneVal), o, NoObj>>        \* list.sort(): evaluated on the server, the answer is None
     [] o.k = "list" /\ op = "item0" -> IF L > 0 THEN <<I(Src(1)), o, NoObj>> ELSE <<Err("IndexError"), o, NoObj>>
     [] o.k = "list" /\ op = "count11" -> <<I(IF L >= 1 THEN 1 ELSE 0), o, NoObj>>
